@@ -47,7 +47,7 @@ def fwd_case(draw, max_tasks=8, fixed=True, late_clock=True, balance=None, **kw)
                     t['start'] = iso(day(P) + timedelta(days=draw(st.integers(-10, 10))))
     sd = nm == 'equal' and draw(st.booleans())
     return dict(dir='fwd', spec=spec, res=rs, P=iso(P), N=iso(N), start_default=sd, balance=draw(st.booleans()) if balance is None else balance,
-                dflt=draw(st.sampled_from([0, 0, 4])), reuse=draw(st.integers(0, 2)) == 0)
+                dflt=draw(st.sampled_from([0, 0, 4])), reuse=draw(st.integers(0, 2)) == 0, wrap=draw(st.integers(0, 3)) == 0)
 
 
 @st.composite
@@ -59,7 +59,7 @@ def bwd_case(draw, max_tasks=8, balance=None, **kw):
     E = BASE + timedelta(days=draw(st.integers(30, 40)), hours=draw(st.sampled_from([0, 0, 0, 10, 23])),
                          minutes=draw(st.sampled_from([0, 0, 30])))
     return dict(dir='bwd', spec=spec, res=rs, P=iso(E), N=iso(datetime(2020, 1, 1)), balance=draw(st.booleans()) if balance is None else balance,
-                dflt=draw(st.sampled_from([0, 0, 4])), reuse=draw(st.integers(0, 2)) == 0)
+                dflt=draw(st.sampled_from([0, 0, 4])), reuse=draw(st.integers(0, 2)) == 0, wrap=draw(st.integers(0, 3)) == 0)
 
 
 def any_case(max_tasks=8, **kw):
@@ -95,7 +95,7 @@ def run(case, wbs=None):
     else:
         o.wbs, o.objs, o.ext = wbs
     handles = []
-    o.resources_in = specs.make_resources(case['res'], handles)
+    o.resources_in = specs.make_resources(case['res'], handles, wrap=bool(case.get('wrap')))
     o.sched = make_scheduler(case, o.resources_in)
     o.error = None
     if case.get('reuse'):
@@ -175,6 +175,7 @@ def extract(o):
 
 def raw_capacity(r, d):
     """capacity of day d as the resource's CALENDAR gives it (a Resource may only translate None to 0)"""
+    r = getattr(r, 'inner', r)            # harness' own IResource subclass (specs.make_resources(wrap=True))
     cal = getattr(r, 'calendar', None)
     if cal is not None:
         u = cal.get_available_units(d)
@@ -572,7 +573,7 @@ def c09(o, v, facts=None):
 def spec_labels(o):
     """classification of the generated case (measured generator distribution)"""
     m, c = o.m, o.case
-    L = [c['dir'], 'balance' if c['balance'] else 'no-balance'] + (['objects-reused'] if c.get('reuse') else [])
+    L = [c['dir'], 'balance' if c['balance'] else 'no-balance'] + (['objects-reused'] if c.get('reuse') else []) + (['custom-resource-class'] if c.get('wrap') else [])
     n = len(m.order)
     L.append('tasks:%s' % ('0' if n == 0 else '1-3' if n <= 3 else '4-6' if n <= 6 else '7+'))
     if m.order:
